@@ -155,16 +155,16 @@ def run(ctx):
     ctx.ob("C18.4", "%s|preread-exists" % FM.nr0.id, "(anchor) new_request reads small bodies at parse time", any(r["reads"] > 0 for r in FM.rows), "%s:%d" % (FM.nr0.file, FM.nr0.line), nontrivial=False)
 
     # ---- C18.5 interim responses are never chunked and carry no body
-    cte = facts.fn("response::choose_transfer_encoding")
-    ok = False
-    for bb in sorted(cte.live_blocks()):
-        bs2 = bool_switch(cte, bb)
-        if not bs2:
-            continue
-        o = cte.origin(bs2[0])
-        if o[0] == "binop" and o[1] == "Lt" and o[3][0] == "const" and o[3][1] == 200:
-            outs = shared.eval_from(cte, bs2[1])
-            if outs and all(st.read_key((0,))[0] == "agg" and st.read_key((0,))[2] == "Identity" for p, st in outs):
-                ok = True
-    ctx.ob("C18.5", "%s|1xx-identity" % cte.id, "a 1xx response is never chunked", ok, "%s:%d" % (cte.file, cte.line))
+    import rules_C05
+    CM = rules_C05.chooser_model(facts)
+    cte = CM.cte
+    bad5 = []
+    for stt in (100, 101, 102, 199):
+        for ver in ((1, 0), (1, 1), (2, 0)):
+            for ln in (None, 0, 5, 100000):
+                outs, npaths = CM.outcomes(ver, stt, ln, 32768)
+                ctx.paths += npaths
+                if outs != {"Identity"}:
+                    bad5.append((stt, ver, ln, sorted(outs)))
+    ctx.ob("C18.5", "%s|1xx-identity" % cte.id, "a 1xx response is never chunked, whatever the request's TE header, version and the body length say", not bad5, "%s:%d" % (cte.file, cte.line), None if not bad5 else str(bad5[:3]))
     return {}
